@@ -220,10 +220,16 @@ def package_files(decls):
     by = defaultdict(list)
     for k, d in enumerate(decls):
         by[d["file"]].append(decl_text(d, k))
-    names = {"go": "a.go", "go2": "b.go", "test": "c_test.go", "tagged": "d.go"}
+    names = {"go": "a.go", "go2": "b.go", "test": "c_test.go", "tagged": "d.go",
+             "genother": "e_api.pb.go", "genfree": "f_kept.go", "genown": "g_legacy.go"}
+    heads = {"tagged": "//go:build verifnever\n\n",
+             # files written (or merely labelled) by generators: they are ordinary source files of the package
+             "genother": "// Code generated by protoc-gen-go. DO NOT EDIT.\n// versions:\n// \tprotoc-gen-go v1.34.2\n// source: api.proto\n\n",
+             "genfree": "// This file is kept in sync with the platform team's template -- DO NOT EDIT it without a review.\n\n",
+             "genown": "// Code generated by mockery; DO NOT EDIT.\n// github.com/vektra/mockery\n// template: testify\n\n"}
     files = {}
     for f, texts in by.items():
-        head = "//go:build verifnever\n\n" if f == "tagged" else ""
+        head = heads.get(f, "")
         files[names[f]] = head + "package p\n\n" + "\n\n".join(texts) + "\n"
     return files
 
@@ -697,6 +703,14 @@ REC_GUARDS = {
         c, lambda W, j, k: W["kind"][k] == "go" and c["expect"][j]["allowed"] == [0] and c["expect"][k]["allowed"] != [0] and W["kind"][j] == "go"),
     "a sibling named <configured package>x below a recursive package": lambda c: prefix_named(
         c, lambda W, j, k: W["on"][j] and not W["on"][k] and c["expect"][k]["allowed"] != [0]),
+    # exclusion lists whose entries would interact if concatenated; names that differ from an entry only in case
+    "a multi-entry exclusion list with an inline flag is in force": lambda c: any(
+        v in (7, 9) for v in [c["W"]["root"]["excl"]] + c["W"]["excl"]) and any("T" == r_ for r_ in c["W"]["rec"] + [c["W"]["root"]["rec"]]),
+    "an upper-case directory below a recursive package with a multi-entry list": lambda c: any(c["W"]["up"]) and any(
+        v >= 5 for v in [c["W"]["root"]["excl"]] + c["W"]["excl"]) and any(
+        c["W"]["up"][k] and c["W"]["kind"][k] == "go" and e["allowed"] != [0] for k, e in enumerate(c["expect"])),
+    "an upper-case directory is excluded by a (?i) entry": lambda c: any(
+        c["W"]["up"][k] and c["W"]["kind"][k] == "go" and e["allowed"] == [0] and e["recanc"] for k, e in enumerate(c["expect"])),
     "unrelated recursive packages next to a nested pair": lambda c: sum(1 for k in range(c["W"]["n"]) if is_rec(c["W"], k)) >= 3 and any(
         len(e["recanc"]) >= 2 for e in c["expect"]),
     "several top-level packages": lambda c: sum(1 for p_ in c["W"]["par"] if p_ == 0) >= 2 and sum(c["W"]["on"]) >= 2,
@@ -1023,7 +1037,8 @@ def run(ctx):
                            "allowed_sources": [e["allowed"] for e in rec_cases[ci]["expect"]], "contract": "spec/RecursiveTrace.tla"})
     tick(ctx, "trace_validation", t0)
     ctx.cov["distinct_nontrivial"] = len(sel_cases) + len(rec_cases)
-    ctx.cov["recursive_worlds_model_checked"] = len(rec_cases)
+    ctx.cov["recursive_worlds_exported"] = len(rec_cases)
+    ctx.cov["recursive_export_rule"] = "every world is model checked; those with WHash % ExportMod = 0 (cfg) are exported for replay"
     ctx.cov["rule"] = ("one case = one package configuration over the all-kinds package (Selection) or one package tree + "
                        "configuration (Recursive); all are model checked, the binary replays every Selection case and "
                        "the stated number of Recursive worlds")
